@@ -1,6 +1,7 @@
 //! tvh — the tsrun verification harness. One binary, one subcommand per engine.
 mod common;
 mod run;
+mod reuse;
 mod c05;
 mod c13;
 mod c15;
@@ -19,6 +20,7 @@ fn main() {
         "run" => run::main(&rest),
         "gcsched" => run::gcsched_main(&rest),
         "leak" => run::leak_main(&rest),
+        "reuse" => reuse::main(&rest),
         "c05" => c05::main(&rest),
         "c13" => c13::main(&rest),
         "c15" => c15::main(&rest),
